@@ -140,7 +140,7 @@ def events_for_class(c: dict, pairs: list, ident: int, desc: dict) -> tuple:
     n = len(c['fl'])
     for fi in range(n):
         x = G_int(**{NAMES[0]: 1})
-        before = sorted(x.__pane_set__)
+        before = sorted(x.dict(set_only=True))
         _h(x)                       # (hashed once before the assignment: the hash must follow the fields)
         try:
             setattr(x, NAMES[fi], 2)
@@ -151,7 +151,7 @@ def events_for_class(c: dict, pairs: list, ident: int, desc: dict) -> tuple:
             o = type(e).__name__
         ident += 1
         ev = {'id': ident, 'op': 'mutate', 'cls': c, 'what': 'set', 'field': NAMES[fi], 'out': o,
-              'set_before': before, 'set_after': sorted(x.__pane_set__),
+              'set_before': before, 'set_after': sorted(x.dict(set_only=True)),
               'stored': 'T' if getattr(x, NAMES[fi]) == 2 else 'F', 'eq_after': 'na', 'heq_after': 'na'}
         if o == 'ok':
             y = inst(G_int, [getattr(x, NAMES[i]) for i in range(n)], 'unchecked')      # an equal, fresh instance
@@ -176,12 +176,12 @@ def events_for_class(c: dict, pairs: list, ident: int, desc: dict) -> tuple:
     for supplied in ([0], list(range(n))):
         vals = [1 if i in supplied else 0 for i in range(n)]
         x = G_int(**{NAMES[i]: 1 for i in supplied})
-        before = sorted(x.__pane_set__)
+        before = sorted(x.dict(set_only=True))
         for how in ('copy', 'deepcopy'):
             h0 = counter[0]
             try:
                 y = copy.copy(x) if how == 'copy' else copy.deepcopy(x)
-                o = {'k': 'ok', 'vals': [getattr(y, NAMES[i]) for i in range(n)], 'set': sorted(y.__pane_set__)}
+                o = {'k': 'ok', 'vals': [getattr(y, NAMES[i]) for i in range(n)], 'set': sorted(y.dict(set_only=True))}
                 isnew, eqorig = ('T' if y is not x else 'F'), ('T' if y == x else 'F')
             except Exception as e:  # noqa
                 o, isnew, eqorig = {'k': 'exc', 'c': type(e).__name__}, 'F', 'F'
@@ -193,7 +193,7 @@ def events_for_class(c: dict, pairs: list, ident: int, desc: dict) -> tuple:
             kwargs = {NAMES[i - 1]: (v if v != -1 else 'zz') for i, v in ch}
             try:
                 y = x.__replace__(**kwargs)
-                o = {'k': 'ok', 'vals': [getattr(y, NAMES[i]) for i in range(n)], 'set': sorted(y.__pane_set__)}
+                o = {'k': 'ok', 'vals': [getattr(y, NAMES[i]) for i in range(n)], 'set': sorted(y.dict(set_only=True))}
             except pane.ConvertError:
                 o = {'k': 'reject'}
             except Exception as e:  # noqa
